@@ -27,6 +27,8 @@ type fnInfo struct {
 	liveIn  [][]bool    // per block: live registers at entry (phis of the block included as live)
 	liveAll [][]bool    // per block: liveIn ∪ defs in block (safe over-approx for mid-block merges)
 	hasLoop bool
+	chains  [][]*loopInfo
+	chainOK []bool
 }
 
 var fnInfos = map[*ssa.Function]*fnInfo{}
@@ -331,6 +333,19 @@ func (fi *fnInfo) computeLiveness() {
 
 // loopChain returns the loops enclosing block b, outermost first.
 func (fi *fnInfo) loopChain(b *ssa.BasicBlock) []*loopInfo {
+	if fi.chains == nil {
+		fi.chains = make([][]*loopInfo, len(fi.fn.Blocks))
+		fi.chainOK = make([]bool, len(fi.fn.Blocks))
+	}
+	if fi.chainOK[b.Index] {
+		return fi.chains[b.Index]
+	}
+	c := fi.loopChain0(b)
+	fi.chains[b.Index], fi.chainOK[b.Index] = c, true
+	return c
+}
+
+func (fi *fnInfo) loopChain0(b *ssa.BasicBlock) []*loopInfo {
 	l := fi.loopOf[b.Index]
 	if l == nil {
 		return nil
